@@ -159,6 +159,12 @@ STOP = [
     '<* as async_std::io::ReadExt>::read_exact*',
     '<* as tokio::io::AsyncReadExt>::read_exact*',
     '<* as tokio::io::AsyncReadExt>::read_*',
+    '<* as tokio::io::AsyncReadExt>::read',
+    'tokio::io::util::read::*',
+    '<tokio::io::util::read::*',
+    '<* as async_std::io::ReadExt>::read',
+    'async_std::io::read::read::*',
+    '<async_std::io::read::read::*',
     'tokio::io::util::read_int::*',
     '<tokio::io::util::read_int::*',
     'async_std::io::read::read_exact::',
@@ -586,6 +592,14 @@ def call_model(ex, fn, args, dest_ty):
         return _astd_read_exact(ex, fn, args)
     if ' as tokio::io::AsyncReadExt>::read_exact' in name:
         return _tokio_read_exact(ex, fn, args)
+    if re.search(r' as tokio::io::AsyncReadExt>::read(::<.*>)?$', name):
+        return RExV(args[0], as_slice(ex, args[1]), 'tokio-read')
+    if re.search(r' as async_std::io::ReadExt>::read(::<.*>)?$', name):
+        return RExV(args[0], as_slice(ex, args[1]), 'astd-read')
+    if (name.startswith('<tokio::io::util::read::Read') or name.startswith('<async_std::io::read::read::ReadFuture')) and name.endswith('as std::future::Future>::poll'):
+        return _rex_poll(ex, fn, args)
+    if (name.startswith('<tokio::io::util::read::Read') or name.startswith('<async_std::io::read::read::ReadFuture')) and name.endswith('as std::future::IntoFuture>::into_future'):
+        return args[0]
     mm = re.search(r' as tokio::io::AsyncReadExt>::read_([uif])(\d+)(_le)?$', name)
     if mm:
         nb = int(mm.group(2)) // 8
@@ -1555,6 +1569,18 @@ def _rex_poll(ex, fn, args):
         raise Unsupported('poll of %r' % (rx,))
     env = ex.path.env
     data = env['data']
+    if rx.flavour in ('tokio-read', 'astd-read'):
+        # a single read: one ready poll delivers what the transport has (at most the buffer) and completes
+        act = env['sched'].pop(0) if env['sched'] else 'ALL'
+        env['polls'] = env.get('polls', 0) + 1
+        if act == 'P':
+            return EnumV(1, [])
+        avail = len(data) - env['pos']
+        n = min(rx.buf.len, avail, 10 ** 9 if act == 'ALL' else act)
+        for i in range(n):
+            rx.buf.lst[rx.buf.start + i] = data[env['pos'] + i]
+        env['pos'] += n
+        return EnumV(0, [ok(B64(n))])
     while True:
         need = rx.buf.len - rx.filled
         if need == 0:
